@@ -401,6 +401,9 @@ static void wrapperCase(const std::vector<SlotCfg>& sl, int variant, bool sub, c
       double t1 = H * T1[i] * T1[i], t2 = g * T2[i], exp2 = t1 + t2;
       // two products, a square and a sum: <= 4 roundings on the terms; 8 eps (|t1|+|t2|)
       if (std::isfinite(exp2) && !(std::fabs(got2 - exp2) <= 8 * EPS * (std::fabs(t1) + std::fabs(t2)))) c.fail("wrapper|chain-rule-second", cfg + ": d2/dp" + str(i) + "2 = " + num(got2) + ", f''T'^2+f'T'' = " + num(exp2));
+      // the two-variable query with the same variable twice is the second derivative in that variable
+      { double gotv = w2->getSecondOrderDerivative("p" + str(i), "p" + str(i));
+        if (std::isfinite(exp2) && !(std::fabs(gotv - exp2) <= 8 * EPS * (std::fabs(t1) + std::fabs(t2)))) c.fail("wrapper|chain-rule-second|two-variable-query-with-one-variable", cfg + ": d2/dp" + str(i) + "dp" + str(i) + " = " + num(gotv) + ", f''T'^2+f'T'' = " + num(exp2) + " (one-variable query: " + num(got2) + ")"); }
       for (int j = i + 1; j < n; ++j) if (wrapped[j]) {
         double gotc = w2->getSecondOrderDerivative("p" + str(i), "p" + str(j)), expc = PolyFn::hess(i, j) * T1[i] * T1[j];
         double gotd = w2->getSecondOrderDerivative("p" + str(j), "p" + str(i));
